@@ -41,6 +41,34 @@ type loopFacts struct {
 	putValue          string
 	assignRHS         string
 	cursorVar         string
+	helperWriters     map[string]bool // functions/methods of the package whose body writes the LevelDB cursor
+	writeSteps        []string        // for every cursor-write site in the case body: the step that contains it
+}
+
+// writeSites counts the LevelDB cursor writes inside n: direct `….DB.Put(` calls and calls of package
+// functions/methods that contain one (followed one level).
+func (f *loopFacts) writeSites(n ast.Node) int {
+	cnt := 0
+	ast.Inspect(n, func(x ast.Node) bool {
+		call, ok := x.(*ast.CallExpr)
+		if !ok {
+			return true
+		}
+		fn := f.c.Src(call.Fun)
+		if strings.HasSuffix(fn, "DB.Put") {
+			cnt++
+			return true
+		}
+		name := fn
+		if i := strings.LastIndex(fn, "."); i >= 0 {
+			name = fn[i+1:]
+		}
+		if f.helperWriters[name] {
+			cnt++
+		}
+		return true
+	})
+	return cnt
 }
 
 // mentions reports whether the source rendering of n contains the text s.
@@ -215,6 +243,9 @@ func (f *loopFacts) classify(body []ast.Stmt) {
 			kind = "unknown"
 			f.unknown = append(f.unknown, c.Src(st))
 		}
+		for k := f.writeSites(st); k > 0; k-- {
+			f.writeSteps = append(f.writeSteps, kind)
+		}
 		f.steps = append(f.steps, kind)
 		prev = kind
 	}
@@ -267,7 +298,27 @@ func init() {
 		if err != nil {
 			return err
 		}
-		f := &loopFacts{c: c}
+		f := &loopFacts{c: c, helperWriters: map[string]bool{}}
+		var helperNames []string
+		for _, file := range files {
+			for _, d := range file.Decls {
+				fd, ok := d.(*ast.FuncDecl)
+				if !ok || fd.Body == nil || fd.Name.Name == "Start" || strings.HasPrefix(fd.Name.Name, "Verif") {
+					continue
+				}
+				direct := false
+				ast.Inspect(fd.Body, func(x ast.Node) bool {
+					if call, ok := x.(*ast.CallExpr); ok && strings.HasSuffix(c.Src(call.Fun), "DB.Put") {
+						direct = true
+					}
+					return true
+				})
+				if direct {
+					f.helperWriters[fd.Name.Name] = true
+					helperNames = append(helperNames, fd.Name.Name)
+				}
+			}
+		}
 		// constants
 		trailing, key := "", ""
 		for _, file := range files {
@@ -342,6 +393,10 @@ func init() {
 		if f.cursorVar == "" {
 			f.cursorVar = "?"
 		}
+		writesInStart := 0
+		if start != nil {
+			writesInStart = f.writeSites(start.Body)
+		}
 		if caseBody != nil {
 			f.classify(caseBody)
 		} else {
@@ -370,6 +425,9 @@ func init() {
 		fmt.Fprintf(&b, "def incrementExpr : String := %s\n", LeanStr(f.incrementExpr))
 		fmt.Fprintf(&b, "def putKey : String := %s\ndef putValue : String := %s\n", LeanStr(f.putKey), LeanStr(f.putValue))
 		fmt.Fprintf(&b, "def assignRhs : String := %s\n", LeanStr(f.assignRHS))
+		fmt.Fprintf(&b, "/-- every site in the `newHead` case that writes the LevelDB cursor (direct `DB.Put` or a call of a package function\n    that contains one): the step each lies in -/\ndef cursorWriteSteps : List Step := %s\n", leanList(f.writeSteps, false))
+		fmt.Fprintf(&b, "/-- cursor-write sites in the whole of `Start` (those of the case body included) -/\ndef cursorWriteSitesInStart : Nat := %d\n", writesInStart)
+		fmt.Fprintf(&b, "def cursorWriterHelpers : List String := %s\n", leanList(helperNames, true))
 		fmt.Fprintf(&b, "def selectCases : Nat := %d\n", casesInSelect)
 		fmt.Fprintf(&b, "/-- start-up: cursor read from LevelDB under the key, 0 when absent, big-endian bytes otherwise -/\ndef startupReadsCursor : Bool := %s\ndef startupDefaultZero : Bool := %s\ndef startupSetBytes : Bool := %s\n",
 			leanBool(startupGet), leanBool(startupDefaultZero), leanBool(startupSetBytes))
